@@ -56,6 +56,33 @@ def sizes(ck):
     return vlib.read_ndjson(path)
 
 
+def huge(ck):
+    """collections of 2^32 and more members in every flavour that can hold them (zero-sized members);
+    thorough: a 2^32+3-byte collection sampled, top byte of the chosen position uniform over 256"""
+    path = os.path.join(ck.work, "ch-huge.ndjson")
+    args = ["ch-huge", "--seed", ck.seed, "--out", path] + ([] if ck.tier == "quick" else ["--bytes"])
+    ck.harness(args, timeout=3000)
+    evs = vlib.read_ndjson(path)
+    laws = [e for e in evs if e["ev"] == "huge_law"]
+    vlib.write_ndjson(path, [e for e in evs if e["ev"] == "huge"])
+    ck.validate_runs("ec/Trace_Choices", "ec/Trace_Choices.cfg", path,
+                     lambda ev, prefix: f"trace:huge:{ev.get('flavour')}:{ev.get('b', {}).get('k')}",
+                     lambda ev, prefix: (f"a collection of {ev.get('len')} members in flavour {ev.get('flavour')} was not built with "
+                                         f"its true number of members: {json.dumps(ev.get('b'))}"),
+                     regen=lambda ev: {"huge": True}, timeout=1200)
+    for e in laws:
+        if e.get("panic"):
+            ck.violation(f"law:huge:{e['flavour']}:panic", f"sampling a {e['len']}-member collection panicked: {e['panic']}",
+                         {"kind": "huge", "row": e})
+            continue
+        bad = stats.check_law(e["counts"], e["n"], [1 / 256] * 256)
+        if bad:
+            ck.violation(f"law:huge:{e['flavour']}",
+                         f"members of a {e['len']}-member collection are not chosen uniformly: positions with top byte "
+                         f"{bad[0][0]} were drawn {bad[0][1]} times out of {e['n']} (expected 1/256)", {"kind": "huge", "row": e})
+    return len(evs)
+
+
 def empty_arrays(ck):
     """zero-length arrays in every conversion flavour: separate target, so that a compile-time
     rejection is attributable to C18 instead of breaking the harness"""
@@ -115,9 +142,11 @@ def run(ck):
     evs = tv(ck, 2000 if q else 100000)
     sz = sizes(ck)
     ea = empty_arrays(ck)
+    hg = huge(ck)
     N = 60000 if q else 2000000
     rows, cells = law(ck, N)
-    ck.cov["conformance"].update({"size_sweep_events": len(sz), "empty_array_flavours": len(ea)})
+    ck.cov["conformance"].update({"size_sweep_events": len(sz), "empty_array_flavours": len(ea),
+                                  "huge_collection_events": hg})
     ck.cov["evaluations"] = summ["cases"] + len(evs) + len(sz) + len(rows) * N
     ck.cov["distinct_nontrivial"] = summ["cases"]
     ck.cov["rule"] = ("every collection of 0..MaxLen members over two values (duplicates) x 17 conversion "
@@ -143,6 +172,8 @@ def replay(ck, obj):
         law(ck, obj["n"])
     elif obj["kind"] == "empty-arrays":
         empty_arrays(ck)
+    elif obj["kind"] == "huge" or obj.get("regen", {}).get("huge"):
+        huge(ck)
     elif obj.get("regen", {}).get("sizes"):
         sizes(ck)
     else:
